@@ -28,6 +28,8 @@ KINDS = [
     ('boom', 'GET', '/boom?id={i}', b''),
     ('redir', 'GET', '/dir?id={i}', b''),
     ('dir', 'GET', '/dir/?id={i}', b''),
+    ('br', 'GET', '/br/{nm}{i}/?id={i}', b''),
+    ('brredir', 'GET', '/br/{nm}{i}?id={i}', b''),
     ('ret409', 'GET', '/ret409?id={i}', b''),
     ('raise403', 'GET', '/raise403?id={i}', b''),
     ('sub', 'GET', '/sub/echo/{nm}?id={i}', b''),
@@ -127,7 +129,7 @@ class C12(Check):
     level_note = ('Trusted: CPython 3.12 sys.monitoring event delivery, the baton scheduler, GIL atomicity of '
                   'single instructions. Yield points exist only in clastic/generated/harness code.')
     runs = {'quick': 4000, 'thorough': 100000}
-    shrink_lists = (('preempts',), ('requests',))
+    shrink_lists = (('preempts',), ('requests',), ('marathon', 'T0'), ('marathon', 'T1'), ('marathon', 'T2'), ('marathon', 'T3'))
     hashseeds = {'quick': [1], 'thorough': [1, 2]}
     rule = ('seeded schedules (PCT priority-change, uniform random, targeted bursts) plus a complete '
             'depth-1 pre-emption sweep over ordered request pairs; 2-4 real threads on one shared '
@@ -146,7 +148,7 @@ class C12(Check):
                  'OS threads (parked/released one at a time)'],
         'stub': ['WSGI server and HTTP clients (SimGateway)', 'thread scheduling choice (BatonScheduler)'],
     }
-    required_probes = ('cold-application', 'switch-in-clastic', 'switch-in-sinter', 'gran-ins', 'gran-line', 'threads-4')
+    required_probes = ('marathon', 'cold-application', 'switch-in-clastic', 'switch-in-sinter', 'gran-ins', 'gran-line', 'threads-4')
 
     # ---- generation ------------------------------------------------------
     def gen_config(self, rng):
@@ -197,7 +199,7 @@ class C12(Check):
                 # (lazy initialisation races); the expected responses come from a warm twin
                 'cold': S['config'].random() < 0.3}
 
-    def extra_plans(self, tier, base_seed):
+    def depth1_plans(self, tier, base_seed):
         """Complete depth-1 sweep: for ordered pairs (A, B): run A to yield
         point k, B to completion, then resume A -- for every k."""
         cfg = {'tok': True, 'eptok': True, 'rendermw': True, 'echo_errors': True, 'slash': 'redirect'}
@@ -222,8 +224,85 @@ class C12(Check):
                            'granularity': gran, 'order': ['T0', 'T1'], 'preempts': [[k, 'T1']],
                            'mode': 'depth1'}
 
+    def marathon_plans(self, tier, base_seed):
+        """Long concurrent phases: two threads each serve hundreds of requests with DISTINCT branch-route paths, so
+        that whatever per-process table the framework keeps about paths is filled, overflows and is recycled WHILE
+        requests are in flight.  Expected responses are predicted, not measured (a warm-up would pre-fill such tables)."""
+        rng = Streams(base_seed)['marathon']
+        cfg = {'tok': True, 'eptok': False, 'rendermw': False, 'echo_errors': False, 'slash': 'redirect'}
+        for k in range(64 if tier == 'quick' else 600):
+            nthreads = rng.choice([3, 4, 4])
+            n = rng.choice([250, 350, 450])
+            tag = 'm%d_%d' % (base_seed % 100000, k)
+            names = ['T%d' % t for t in range(nthreads)]
+            seqs = {}
+            for t in names:
+                seqs[t] = [{'x': '%s%s%d' % (tag, t, i), 'canon': rng.random() < 0.9, 'id': (i % 89) + 10} for i in range(n)]
+            total = nthreads * n * 110
+            p = rng.choice([0.005, 0.01, 0.02])
+            pre = []
+            step = 0
+            while step < total:
+                step += max(1, int(rng.expovariate(p)))
+                pre.append([step, rng.choice(names)])
+            yield {'world': 'threads', 'seed': base_seed, 'config': cfg, 'marathon': seqs, 'granularity': 'line',
+                   'order': names, 'preempts': pre, 'mode': 'marathon', 'requests': []}
+
+    def extra_plans(self, tier, base_seed):
+        for p in self.depth1_plans(tier, base_seed):
+            yield p
+        for p in self.marathon_plans(tier, base_seed):
+            yield p
+
+    def execute_marathon(self, plan):
+        res = RunResult()
+        app = app_for(plan['config'])
+        got = {}
+
+        def runner_for(name, seq):
+            def run():
+                out = []
+                for r in seq:
+                    path = '/br/%s%s?id=%d' % (r['x'], '/' if r['canon'] else '', r['id'])
+                    env = make_environ('GET', path)
+                    env['sim.ids'], env['sim.ds'], env['sim.req_objs'] = [], [], []
+                    ex = call_app(app, env, validate=False)
+                    out.append((ex.code, ex.body.decode('utf8', 'replace'), ex.header('Location'),
+                                type(ex.escaped).__name__ if ex.escaped is not None else None))
+                got[name] = out
+            return run
+        tasks = dict((name, runner_for(name, seq)) for name, seq in plan['marathon'].items())
+        sched = BatonScheduler(plan['order'], plan['preempts'], plan['granularity'], WATCH, max_steps=2000000, join_timeout=120.0)
+        sched.run(tasks)
+        res.steps = sched.steps
+        res.nontrivial = bool(sched.switches)
+        res.fire('preempt', len(sched.switches))
+        res.probe('marathon')
+        res.extra['interleaving'] = hashlib.sha1(canon([(a, b, c, d) for (_, a, b, c, d) in sched.switches[:200]]).encode()).hexdigest()[:16]
+        res.signature = 'marathon|%d|%s' % (len(sched.switches), res.extra['interleaving'])
+        res.ev('marathon', sum(len(s) for s in plan['marathon'].values()), 'steps', sched.steps, 'switches', len(sched.switches))
+        for name in sorted(plan['marathon']):
+            if name in sched.errors:
+                res.violate(('C12/deadlock' if type(sched.errors[name]).__name__ == 'SimDeadlock' else
+                             'C12/thread-raised:%s' % type(sched.errors[name]).__name__), '%s: %r' % (name, sched.errors[name]))
+                continue
+            for r, g in zip(plan['marathon'][name], got.get(name, [])):
+                if r['canon']:
+                    exp = (200, 'br|%s|tok-%d|%d' % (r['x'], r['id'], r['id']), None, None)
+                else:
+                    exp = (302, None, 'http://sim.test/br/%s/?id=%d' % (r['x'], r['id']), None)
+                cmp_g = (g[0], g[1] if exp[1] is not None else None, g[2], g[3])
+                if cmp_g != exp:
+                    res.violate('C12/marathon/differs-from-alone:%s' % ('escaped' if g[3] else 'response'),
+                                '%s request /br/%s (id %d) in a long concurrent phase: got %r, served alone it is %r'
+                                % (name, r['x'], r['id'], g, exp))
+                    return res
+        return res
+
     # ---- execution ---------------------------------------------------------
     def execute(self, plan):
+        if plan.get('marathon'):
+            return self.execute_marathon(plan)
         res = RunResult()
         app = app_for(plan['config'])
         reqs = plan['requests']
